@@ -64,6 +64,7 @@ type AddressPool struct {
 	validLifetime     uint32
 	allocated         map[string]net.IP // DUID string -> IP
 	available         []net.IP
+	quarantined       []net.IP // declined addresses, never offered again
 	mu                sync.Mutex
 }
 
@@ -249,6 +250,18 @@ func (p *AddressPool) Release(duid string) {
 	if ip, ok := p.allocated[duid]; ok {
 		delete(p.allocated, duid)
 		p.available = append(p.available, ip)
+	}
+}
+
+// Quarantine ends a client's binding without returning the address to the free
+// list: the client declined it because another node is using it.
+func (p *AddressPool) Quarantine(duid string) {
+	p.mu.Lock()
+	defer p.mu.Unlock()
+
+	if ip, ok := p.allocated[duid]; ok {
+		delete(p.allocated, duid)
+		p.quarantined = append(p.quarantined, ip)
 	}
 }
 
@@ -646,6 +659,12 @@ func (s *Server) handleRelease(msg *Message, addr *net.UDPAddr) {
 		zap.String("from", addr.String()),
 	)
 
+	s.endBinding(msg, addr, false)
+}
+
+// endBinding ends the client's binding (RELEASE or DECLINE) and replies.
+// With quarantine set the address does not go back to the free list.
+func (s *Server) endBinding(msg *Message, addr *net.UDPAddr, quarantine bool) {
 	clientIDOpt := msg.GetOption(OptClientID)
 	if clientIDOpt == nil {
 		return
@@ -658,7 +677,7 @@ func (s *Server) handleRelease(msg *Message, addr *net.UDPAddr) {
 	s.leasesMu.Lock()
 	if lease, ok := s.leases[clientDUID]; ok {
 		if lease.Address != nil {
-			s.releaseAddress(ctx, clientDUID)
+			s.releaseAddress(ctx, clientDUID, quarantine)
 		}
 		if lease.Prefix != nil {
 			s.releasePrefix(ctx, clientDUID)
@@ -688,8 +707,8 @@ func (s *Server) handleDecline(msg *Message, addr *net.UDPAddr) {
 		zap.String("from", addr.String()),
 	)
 
-	// For now, just release and let client try again
-	s.handleRelease(msg, addr)
+	// End the binding and keep the declined address out of circulation
+	s.endBinding(msg, addr, true)
 }
 
 // handleInformationRequest handles an Information-Request message
@@ -1093,7 +1112,7 @@ func (s *Server) allocatePrefix(ctx context.Context, clientDUID string, iaid uin
 }
 
 // releaseAddress releases an IPv6 address allocation.
-func (s *Server) releaseAddress(ctx context.Context, clientDUID string) {
+func (s *Server) releaseAddress(ctx context.Context, clientDUID string, quarantine bool) {
 	if s.addressAllocator != nil {
 		if err := s.addressAllocator.Release(ctx, clientDUID); err != nil {
 			s.logger.Debug("Failed to release address from allocator",
@@ -1105,7 +1124,11 @@ func (s *Server) releaseAddress(ctx context.Context, clientDUID string) {
 	}
 
 	if s.addressPool != nil {
-		s.addressPool.Release(clientDUID)
+		if quarantine {
+			s.addressPool.Quarantine(clientDUID)
+		} else {
+			s.addressPool.Release(clientDUID)
+		}
 	}
 }
 
